@@ -221,6 +221,17 @@ class _Expr(ast.NodeTransformer):
                 elif isinstance(fn, ast.Call) and isinstance(fn.func, ast.Name) and fn.func.id == "attrgetter" and len(fn.args) == 1 \
                         and isinstance(fn.args[0], ast.Constant) and isinstance(fn.args[0].value, str) and "." not in fn.args[0].value:
                     elt = ast.Attribute(value=ast.Name(id=var, ctx=ast.Load()), attr=fn.args[0].value, ctx=ast.Load())
+                elif isinstance(fn, ast.Call) and isinstance(fn.func, ast.Name) and fn.func.id == "methodcaller" and len(fn.args) == 1 \
+                        and not fn.keywords and isinstance(fn.args[0], ast.Constant) and isinstance(fn.args[0].value, str) \
+                        and fn.args[0].value.isidentifier():
+                    # list(map(methodcaller("m"), IT)) -> [v.m() for v in IT]
+                    elt = ast.Call(func=ast.Attribute(value=ast.Name(id=var, ctx=ast.Load()), attr=fn.args[0].value, ctx=ast.Load()),
+                                   args=[], keywords=[])
+                elif isinstance(fn, ast.Call) and isinstance(fn.func, ast.Name) and fn.func.id == "partial" and fn.args \
+                        and not fn.keywords and all(_arg_ok(x) for x in fn.args) and var not in _names(fn):
+                    # list(map(partial(f, a, b), IT)) -> [f(a, b, v) for v in IT]   (f, a, b are plain names / attribute chains:
+                    # reading them per element instead of once changes nothing)
+                    elt = ast.Call(func=fn.args[0], args=list(fn.args[1:]) + [ast.Name(id=var, ctx=ast.Load())], keywords=[])
                 elif isinstance(fn, (ast.Name, ast.Attribute)) and _effect_free(fn) and var not in _names(it):
                     elt = ast.Call(func=fn, args=[ast.Name(id=var, ctx=ast.Load())], keywords=[])
                 if elt is not None and var not in _names(it):
@@ -686,6 +697,7 @@ def _inline_private_helpers(t: ast.Module) -> None:
     """N14: module-level `def _h(p, ..): return E` (private, E pure in its parameters and module constants) is inlined at
     direct call sites with pure arguments; a bare reference `key=_h` with one parameter becomes `lambda p: E`."""
     helpers = {}
+    simple_helpers = {}
     for st in t.body:
         if isinstance(st, ast.FunctionDef) and st.name.startswith("_") and not st.name.startswith("__") and not st.decorator_list:
             a = st.args
@@ -695,12 +707,41 @@ def _inline_private_helpers(t: ast.Module) -> None:
             if len(body) == 1 and isinstance(body[0], ast.Return) and body[0].value is not None and (
                     _pure_value(body[0].value) or _pure_comprehension(body[0].value, {x.arg for x in a.args})):
                 helpers[st.name] = ([x.arg for x in a.args], body[0].value)
-    if not helpers:
+            elif len(body) == 1 and isinstance(body[0], ast.Return) and body[0].value is not None and not any(
+                    isinstance(x, (ast.Lambda, ast.Yield, ast.YieldFrom, ast.Await, ast.NamedExpr, ast.ListComp, ast.GeneratorExp,
+                                   ast.SetComp, ast.DictComp)) for x in ast.walk(body[0].value)):
+                # any single-expression helper: inlining it at a call with plain-name arguments evaluates exactly the same
+                # things in the same order (no purity needed); free names must be module-level names
+                params_ = {x.arg for x in a.args}
+                free = {x.id for x in ast.walk(body[0].value) if isinstance(x, ast.Name)} - params_
+                simple_helpers[st.name] = ([x.arg for x in a.args], body[0].value, free)
+    if not helpers and not simple_helpers:
         return
+    cur_locals = [set()]
 
     class R(ast.NodeTransformer):
+        def visit_FunctionDef(self, fd):
+            loc_ = {x.id for x in ast.walk(fd) if isinstance(x, ast.Name) and isinstance(x.ctx, (ast.Store, ast.Del))}
+            loc_ |= {x.arg for x in ast.walk(fd) if isinstance(x, ast.arg)}
+            cur_locals.append(cur_locals[-1] | loc_)
+            self.generic_visit(fd)
+            cur_locals.pop()
+            return fd
+
         def visit_Call(self, c):
             self.generic_visit(c)
+            if isinstance(c.func, ast.Name) and c.func.id in simple_helpers and not c.keywords:
+                params, expr, free = simple_helpers[c.func.id]
+                if len(c.args) == len(params) and all(isinstance(a, (ast.Name, ast.Constant)) for a in c.args) \
+                        and not (free & cur_locals[-1]) and c.func.id not in cur_locals[-1]:
+                    m = dict(zip(params, c.args))
+
+                    class S0(ast.NodeTransformer):
+                        def visit_Name(self, nn):
+                            if isinstance(nn.ctx, ast.Load) and nn.id in m:
+                                return copy.deepcopy(m[nn.id])
+                            return nn
+                    return _loc(S0().visit(copy.deepcopy(expr)), c)
             if isinstance(c.func, ast.Name) and c.func.id in helpers and not c.keywords:
                 params, expr = helpers[c.func.id]
                 if len(c.args) == len(params) and all(_pure_value(a) for a in c.args):
@@ -722,10 +763,10 @@ def _inline_private_helpers(t: ast.Module) -> None:
                                                            kw_defaults=[], defaults=[]), body=copy.deepcopy(expr)), k.value)
             return k
     for idx, st in enumerate(t.body):
-        if not (isinstance(st, ast.FunctionDef) and st.name in helpers):
+        if not (isinstance(st, ast.FunctionDef) and (st.name in helpers or st.name in simple_helpers)):
             t.body[idx] = R().visit(st)
     # a private helper that is no longer referenced in its module, nor imported anywhere in the package, is dead code
-    for name in list(helpers):
+    for name in list(helpers) + list(simple_helpers):
         refs = [n for n in ast.walk(t) if isinstance(n, ast.Name) and n.id == name]
         in_all = any(isinstance(n, ast.Constant) and n.value == name for n in ast.walk(t))
         if not refs and not in_all and name not in IMPORTED_NAMES:
